@@ -23,9 +23,15 @@ def load_unit(name):
 class Gen:
     pass
 
-def generate(unit, repo='/repo', import_mode=False, strip_body=()):
+def generate(unit, repo='/repo', import_mode=False, strip_body=(), extra_consts=()):
     """returns Gen with .text, .report (per function), .regions [(line_lo, line_hi, fn path, rel file, origin lines)], .items"""
     ov = open(unit['_overlay_path']).read()
+    # free functions of the overlay (depth 1 inside verus!{}): decides whether `Self::f` of the real code becomes a bare `f`
+    m_ov = X.mask(ov)
+    free = set()
+    for mm in re.finditer(r'\bfn\s+([A-Za-z_0-9]+)', m_ov):
+        if m_ov.count('{', 0, mm.start()) - m_ov.count('}', 0, mm.start()) == 1: free.add(mm.group(1))
+    unit = dict(unit); ro = dict(unit.get('rewrite_opts') or {}); ro['free_fns'] = free; unit['rewrite_opts'] = ro
     g = Gen(); g.report = []; g.items = []; g.problems = []; g.unit_name = unit['name']
     pieces = []
     for ent in unit['functions']:
@@ -130,6 +136,18 @@ def generate(unit, repo='/repo', import_mode=False, strip_body=()):
     marks = []
     for s, e, text, origin, path, rel in sorted(pieces, key=lambda p: -p[0]):
         res = res[:s] + '/*<<VX %s>>*/ ' % path + text + '/*<<VX end>>*/' + res[e:]
+    # constants of /repo that changed code refers to but the overlay does not know (a NEW module-level const): taken verbatim from /repo
+    g.extra_consts = []
+    for name in extra_consts:
+        own = sorted(set(e[0] for e in unit.get('functions', [])))
+        dirs = sorted(set(os.path.dirname(r_) for r_ in own))
+        sibl = [os.path.join(d_, f_) for d_ in dirs for f_ in sorted(os.listdir(os.path.join(repo, SRC, d_))) if f_.endswith('.rs') and os.path.join(d_, f_) not in own]
+        for rel in own + sibl:
+            try:
+                rsrc = open(os.path.join(repo, SRC, rel)).read(); rs, re_ = X.locate_item(rsrc, 'const', name)
+            except (X.LostAnchor, OSError): continue
+            rt = X.simple_rewrites(X.normalize(X.tokens(rsrc[rs:re_])), unit.get('rewrite_opts'))
+            res = res.replace('verus! {', 'verus! {\n' + X.emit(rt), 1); g.extra_consts.append('%s (%s)' % (name, rel)); break
     # regions: recompute by scanning markers
     g.text = res
     g.regions = []
@@ -387,6 +405,17 @@ def run_unit(unit, repo='/repo', canary=True, keep=False, rlimit=None, workdir=N
         for dgn in v['diags']:
             info = classify_diag(dgn, g, gen_lines)
             if info['kind'] != 'summary': res['failures'].append(info)
+        # a changed function that names a module-level const the overlay does not have: fetch it from /repo and retry once
+        missing = sorted(set(m_.group(1) for f in res['failures'] if f['kind'] == 'tool-error' for m_ in re.finditer(r'cannot find value `([A-Z][A-Z0-9_]*)`', f.get('message', ''))))
+        if missing and any(r['edits'] for r in g.report):
+            g1 = generate(unit, repo, extra_consts=missing)
+            if g1.extra_consts:
+                open(path, 'w').write(g1.text)
+                v1 = run_verus(path, rlimit=rlimit or unit.get('rlimit'))
+                g, v, gen_lines = g1, v1, g1.text.split('\n')
+                vj = v.get('json', {}); vr = vj.get('verification-results', {})
+                res['verified'] = vr.get('verified'); res['errors'] = vr.get('errors'); res['verus_success'] = vr.get('success'); res['extra_consts'] = g1.extra_consts
+                res['failures'] = [x for x in (classify_diag(dgn, g, gen_lines) for dgn in v['diags']) if x['kind'] != 'summary']
         te_fns = set(f['fn'] for f in res['failures'] if f['kind'] == 'tool-error' and f.get('fn'))
         changed_fns = set(r['fn'] for r in g.report if r['edits'])
         retry = sorted(te_fns & changed_fns)
